@@ -90,7 +90,7 @@ func (sv structValue) invoke(fv reflect.Value) Value {
 		return nilValue
 	}
 	mt := fv.Type()
-	if mt.NumIn() > 0 || mt.NumOut() > 2 {
+	if mt.NumIn() > 0 || mt.NumOut() < 1 || mt.NumOut() > 2 {
 		return nilValue
 	}
 	results := fv.Call([]reflect.Value{})
